@@ -267,7 +267,10 @@ def same_results(a, b):
 
 
 def check_case(ctx, case):
-    d = os.path.join(ctx.outdir, f"cli-{ctx.evaluations}")
+    if case.get("companion"):        # replay of a verdict that rests on two runs: the other one first
+        check_case(ctx, case["companion"])
+        case = {k: v for k, v in case.items() if k != "companion"}
+    d = os.path.join(ctx.outdir, f"cli-{ctx.evaluations}-{len(_needed_readings)}")
     os.makedirs(d, exist_ok=True)
     try:
         _check(ctx, case, d)
@@ -314,6 +317,23 @@ def _check(ctx, case, d):
         ctx.observe("unseeded_run_parsed", True)
         return
     diff = same_results(got, api)
+    if case.get("compare_readings"):
+        try:
+            exact_ok = same_results(got, api_results(case, paths, fast=False)) is None
+        except Exception:
+            exact_ok = None
+        if exact_ok is not None and exact_ok != (diff is None):
+            need = "fast" if diff is None else "exact"
+            _needed_readings.setdefault(need, (argv[len(paths):], {k: v for k, v in case.items() if k != "companion"}))
+            ctx.observe("reading_needed_on_a_large_file", need)
+            if len(_needed_readings) == 2:
+                other = _needed_readings["exact" if need == "fast" else "fast"][1]
+                ctx.fail("cli-follows-fast-or-exact-mode-depending-on-unrelated-options",
+                         {"fast_mode_needed_for": _needed_readings["fast"][0], "exact_mode_needed_for": _needed_readings["exact"][0]},
+                         case=dict(case, companion=other), monitor="M-CLI")     # the replay runs the companion case first
+                return
+        elif exact_ok is not None:
+            ctx.observe("reading_needed_on_a_large_file", "both-match" if exact_ok else "none-matches")
     if diff:
         # other readings of "the API result for the same file and seed": exact mode; the seed applied before each file
         for label, kw in (("exact_mode", {"fast": False}), ("seed_applied_per_file", {"reseed_each_file": True})):
@@ -353,7 +373,7 @@ def _check(ctx, case, d):
 def gen_case(ctx):
     rng = ctx.rng
     cat_dissim = rng.choice([None, "absolute", "numerical", "levenshtein", "numerical", "levenshtein"])
-    labels = cases.LABELS_NUM if cat_dissim == "numerical" else rng.choice([cases.LABELS_WORDS, cases.LABELS_SMALL])
+    labels = rng.choice([cases.LABELS_NUM, NUMERIC_FORMS]) if cat_dissim == "numerical" else rng.choice([cases.LABELS_WORDS, cases.LABELS_SMALL])
     fmt = rng.choice(["csv", "csv", "csv", "rttm"])
     files = []
     for _ in range(rng.choice([1, 1, 1, 2, 2])):
@@ -395,6 +415,11 @@ def gen_case(ctx):
             "probe": rng.choice(set_opts) if (set_opts and rng.random() < 0.6) else None}
 
 
+# numerical categories in every form float() reads (signed, exponent, no leading digit), not just plain digits
+NUMERIC_FORMS = ["1", "2.5", "-2", "+1", "1e1", ".5", "10", "3", "-0.5"]
+_needed_readings = {}
+
+
 def targeted_cases(ctx):
     """A few option / input combinations every worker runs first (each is a boundary the random generator reaches rarely):
     two files whose category sets are nested, with every categorical dissimilarity; --seed 0; a single-annotator-pair file."""
@@ -412,6 +437,26 @@ def targeted_cases(ctx):
                                 "precision": 0.5, "n_samples": 5, "cat_dissim": cat_dissim, "gamma_cat": True, "gamma_k": True,
                                 "mathet": rng.random() < 0.5, "explicit_separator": False},
                     "output": rng.choice(["print", "csv", "json"]), "probe": "cat_dissim" if cat_dissim != "absolute" else None})
+    # numerical categories written with a sign / an exponent / without a leading digit
+    forms = ["-2", "+1", "1e1", ".5", "3"]
+    c0 = cases.gen_continuum(rng, n_annot=2, sizes=[5, 5], family="grid", labels=forms, allow_empty=False)
+    for a in c0["ann"]:
+        for k, u in enumerate(c0["ann"][a]):
+            u[2] = forms[(k + (1 if a == "bob" else 0)) % len(forms)]
+    out.append({"files": [{"ann": c0["ann"]}], "format": "csv", "separator": ",",
+                "options": {"seed": rng.choice([3, 11]), "alpha": None, "beta": None, "delta": None, "precision": 0.5, "n_samples": 5,
+                            "cat_dissim": "numerical", "gamma_cat": True, "gamma_k": True, "mathet": False, "explicit_separator": False},
+                "output": rng.choice(["print", "json"]), "probe": "cat_dissim"})
+    # a file large enough for the fast mode to work with a finite window, with and without -m: whichever reading of "the API
+    # for the same options" the tool follows (fast or exact mode), it must be the same one for both option sets
+    big = cases.gen_continuum(rng, n_annot=4, sizes=[16] * 4, family="grid", labels=cases.LABELS_SMALL, allow_empty=False,
+                              names=cases.ANNOTATOR_NAMES[:4])
+    sd = rng.choice([5, 12, 99])
+    for mathet in (False, True):
+        out.append({"files": [{"ann": big["ann"]}], "format": "csv", "separator": ",", "compare_readings": True,
+                    "options": {"seed": sd, "alpha": None, "beta": None, "delta": None, "precision": 0.9, "n_samples": 3,
+                                "cat_dissim": None, "gamma_cat": False, "gamma_k": False, "mathet": mathet, "explicit_separator": False},
+                    "output": "json", "probe": None})
     return out
 
 
